@@ -17,6 +17,8 @@ type Disk struct {
 	Log []WriteEntry
 	// FailWrites, when >0, makes the next writes fail (robustness strata only)
 	FailWrites int
+	// Dead: the process that owned this handle crashed; its late writes go nowhere
+	Dead bool
 }
 
 type WriteOp struct {
@@ -49,6 +51,9 @@ func (d *Disk) apply(e WriteEntry) {
 }
 
 func (d *Disk) commit(e WriteEntry) error {
+	if d.Dead {
+		return errDisk
+	}
 	if d.FailWrites > 0 {
 		d.FailWrites--
 		return errDisk
